@@ -149,4 +149,28 @@ def stringPrefixOnly (mounts : List Path) (cwd p : Path) : Bool :=
   | none => false
   | some (m, _) => !isCompPrefix (comps m) (comps (mountKeyPath cwd p))
 
+/-! ### sessions: lookups interleaved with `Chdir` on one VirtualOS.  `Chdir` stores the
+    directory verbatim (os/virtual.go); a lookup consults the mount table with the working
+    directory of that moment and leaves no trace. -/
+
+inductive SOp where
+  | chdir (d : Path)
+  | lookup (p : Path)
+  deriving Repr, DecidableEq
+
+def SOp.isChdir : SOp → Bool
+  | .chdir _ => true
+  | .lookup _ => false
+
+def cwdAfter : Path → List SOp → Path
+  | cwd, [] => cwd
+  | _, .chdir d :: r => cwdAfter d r
+  | cwd, .lookup _ :: r => cwdAfter cwd r
+
+/-- the answers of the lookups of a session, in order -/
+def runSession (mounts : List Path) : Path → List SOp → List (Option (Path × Path))
+  | _, [] => []
+  | _, .chdir d :: r => runSession mounts d r
+  | cwd, .lookup p :: r => findMount mounts cwd p :: runSession mounts cwd r
+
 end Risor.C13
